@@ -94,6 +94,7 @@ type Exec struct {
 	callLog  []*callRec
 	curBlk   *ssa.BasicBlock
 	phiOverride map[*ssa.Phi]string
+	allocAtEntry map[*ssa.BasicBlock]string
 }
 
 type callRec struct {
